@@ -481,3 +481,16 @@ Proof.
   exists (ctab pf_ct), [FPush 0%N true true; FPush 2%N true false], 0%N, 2%N.
   vm_compute. repeat split; auto.
 Qed.
+
+(* ---- an operation that fails half-way is outside the theorems: witness ---- *)
+Lemma store_delete_error_refuted :
+  exists content isman ops n p,
+    (forall q, content q <> [] -> isman q = true) /\
+    let s := delete_unlink_fails content isman
+               (fst (orun true true true content isman 50 empty_store ops)) p in
+    In p (o_blobs s) /\ In n (content p) /\ ~ In p (predecessors (o_graph s) n).
+Proof.
+  exists (ctab pf_ct), pf_isman, [PPush 0%N; PPush 2%N], 0%N, 2%N.
+  split; [exact pf_content_isman|].
+  vm_compute. repeat split; auto.
+Qed.
